@@ -117,9 +117,29 @@ def run(chk):
     }, const_recv="self._constants")
     b = agree.bind_call(c, formals) or {}
     feet = b.get("vPts")
+    if isinstance(feet, ast.Name):
+        # a local computed once in the method stands for its defining expression
+        fd = [n_ for n_ in ast.walk(step) if isinstance(n_, ast.Assign) and src(n_.targets[0]) == feet.id]
+        st_ = [n_ for n_ in ast.walk(step) if isinstance(n_, ast.Name) and n_.id == feet.id and isinstance(n_.ctx, ast.Store)]
+        if len(fd) == 1 and len(st_) == 1:
+            feet = fd[0].value
+        else:
+            # the feet are re-assigned before the kernel sees them: folding them into the domain with `%`/np.mod uses the half-open
+            # interval [vMin, vMax), the kernel's periodic image (shift loops) the interval (vMin, vMax]
+            wrap = [n_ for n_ in fd if any((isinstance(x_, ast.Call) and src(x_.func) in ("np.mod", "np.remainder", "np.fmod")) or
+                                           (isinstance(x_, ast.BinOp) and isinstance(x_.op, ast.Mod)) for x_ in ast.walk(n_.value))]
+            if wrap:
+                chk.ob("F2-feet", wrap[0], f"vPts <- {feet.id} (re-assigned: {src(wrap[0])[:70]})", False,
+                       f"`{src(wrap[0])[:90]}` folds the feet into [vMin, vMax) before the kernel is called: a foot lying exactly on vMax "
+                       "(zero displacement, or a displacement of a whole number of cells reaching vMax) is moved to vMin and takes the "
+                       "spline's value there, whereas the kernel's own periodic image leaves it on vMax; the spline in v is clamped, "
+                       "so the two values differ", file=U.ADV, func="VParallelAdvection.step")
+                feet = None
     okf = False
     detail = "no argument bound to vPts"
-    if feet is not None:
+    if feet is None and isinstance(b.get("vPts"), ast.Name):
+        pass
+    elif feet is not None:
         P, cc, dt = sp.symbols("P c dt", real=True)
         try:
             val = eval(compile(ast.Expression(body=_rename(feet)), "<feet>", "eval"), {"__builtins__": {}},
@@ -128,17 +148,18 @@ def run(chk):
             detail = f"feet expression `{src(feet)}` = {val}"
         except Exception as e:
             detail = f"feet expression `{src(feet)}` not a polynomial in (nodes, c, dt): {e}"
-    chk.ob("F2-feet", feet or c, f"vPts <- {src(feet) if feet is not None else '?'}", okf if feet is not None and "not a polynomial" not in detail else (None if feet is not None else False),
-           "feet are v_node - c*dt" if okf else detail, file=U.ADV, func="VParallelAdvection.step")
+    if not (feet is None and isinstance(b.get("vPts"), ast.Name)):
+        chk.ob("F2-feet", feet or c, f"vPts <- {src(feet) if feet is not None else '?'}", okf if feet is not None and "not a polynomial" not in detail else (None if feet is not None else False),
+               "feet are v_node - c*dt" if okf else detail, file=U.ADV, func="VParallelAdvection.step")
     pts = [n for n in ast.walk(chk.func(U.ADV, "VParallelAdvection.__init__")) if isinstance(n, ast.Assign)
            and src(n.targets[0]) == "self._points"]
     okp = len(pts) == 1 and src(pts[0].value) == "eta_vals[3]"
     chk.ob("E2-point-order", pts[0] if pts else step, "self._points = eta_vals[3]", okp,
            "nodes are the v grid (dimension 3)", file=U.ADV, func="VParallelAdvection.__init__")
-    stmts = step.body
-    i1 = [k for k, s_ in enumerate(stmts) if "compute_interpolant(f, self._spline)" in src(s_)]
-    i2 = [k for k, s_ in enumerate(stmts) if "v_parallel_advection_eval_step" in src(s_)]
-    oki = bool(i1) and bool(i2) and i1[0] < i2[0]
+    ci = [n_ for n_ in ast.walk(step) if isinstance(n_, ast.Call) and isinstance(n_.func, ast.Attribute) and n_.func.attr == "compute_interpolant"
+          and src(n_.func.value) == "self._interpolator"]
+    oki = len(ci) == 1 and (ci[0].lineno, ci[0].col_offset) < (c.lineno, c.col_offset) and \
+        [src(a_) for a_ in ci[0].args] + [src(k_.value) for k_ in ci[0].keywords] == ["f", "self._spline"]
     chk.ob("E2-interpolate-before-evaluate", step, "compute_interpolant(f, self._spline)", oki,
            "the spline is recomputed from the current nodal values before it is evaluated at the feet" if oki else
            "the spline of f is not recomputed before evaluation", file=U.ADV, func="VParallelAdvection.step")
